@@ -1,6 +1,6 @@
 INIT Init
 NEXT Next
-CONSTANTS A = 6
+CONSTANTS A = 7
  D = 4
 INVARIANT Functional
 CONSTRAINT Emit
